@@ -40,7 +40,29 @@ func c02PredefinedCharset(which int) func(k int) []byte {
 
 var c02PredefinedCounts = []int{1, 86, 87, 88, 89, 165, 166, 167, 168, 228, 229, 230, 231, 400}
 
+// c02ScriptListShared: k script records that all point at one script table, whose k language system records
+// all point at one language system table with k feature indices: 14k bytes that decode to k^3 entries.
+func c02ScriptListShared(k int) []byte {
+	lookupList := append(be16(1, 4, 1, 0, 1, 8), append(be16(1, 6, 1), be16(1, 1, 1)...)...)
+	featureList := append(append(be16(1), 't', 'e', 's', 't'), be16(8, 0, 1, 0)...)
+	scriptList := be16(k)
+	scriptAt := 2 + 6*k
+	for i := 0; i < k; i++ {
+		scriptList = append(append(scriptList, 'l', 'a', 't', 'n'), be16(scriptAt)...)
+	}
+	langSysAt := 4 + 6*k
+	scriptList = append(scriptList, be16(0, k)...)
+	for i := 0; i < k; i++ {
+		scriptList = append(append(scriptList, 'D', 'E', 'U', ' '), be16(langSysAt)...)
+	}
+	scriptList = append(scriptList, be16(0, 0xFFFF, k)...)
+	scriptList = append(scriptList, make([]byte, 2*k)...) // k times feature index 0
+	out := be16(1, 0, 10, 10+len(scriptList), 10+len(scriptList)+len(featureList))
+	return append(append(append(out, scriptList...), featureList...), lookupList...)
+}
+
 var c02Families = []c02Family{
+	{"GSUB: k script records sharing one script table whose k language system records share one language system with k feature indices (k^3 entries from 14k bytes)", "gtab.Read/GSUB", c02ScriptListShared, []int{25, 50, 100, 200, 400}},
 	{"CFF: a simple font that uses the predefined ISOAdobe charset (229 names) and has k glyphs", "cff.Read", c02PredefinedCharset(1), c02PredefinedCounts},
 	{"CFF: a simple font that uses the predefined Expert charset (166 names) and has k glyphs", "cff.Read", c02PredefinedCharset(2), c02PredefinedCounts},
 	{"CFF: a simple font that uses the predefined ExpertSubset charset (87 names) and has k glyphs", "cff.Read", c02PredefinedCharset(3), c02PredefinedCounts},
